@@ -7,6 +7,8 @@ CONSTANTS
   Mods = {"none"}
   VGs = {"Dyn", "YNyn", "Yzn"}
   Topos = {"radial", "cut"}
+  Cpls = {"c4", "c2", "o4"}
+  EgSets = {"g13", "g31"}
 INVARIANT M_TotalsAgree
 INVARIANT M_SymmetricImpliesBalanced
 INVARIANT M_BalancedThird
@@ -14,3 +16,6 @@ INVARIANT M_DeadElementsInert
 INVARIANT M_PerPhaseScope
 INVARIANT M_RejectedUnchecked
 INVARIANT M_RowsConsistent
+INVARIANT M_FusedSum
+INVARIANT M_OpenSwitchFusesNothing
+INVARIANT M_FusedSameSupply
